@@ -3,6 +3,7 @@ package regnet
 import (
 	"encoding/hex"
 	"fmt"
+	"github.com/elastos/Elastos.ELA/core/contract"
 	"strings"
 
 	"github.com/elastos/Elastos.ELA/common"
@@ -23,6 +24,9 @@ func (n *Node) AddrNo(ph common.Uint168) int {
 		if a.ProgramHash == ph {
 			return i
 		}
+	}
+	if ph[0] == byte(contract.PrefixCrossChain) {
+		return 900 + int(ph[1]) // cross-chain ("X") addresses 900..999
 	}
 	return 1000 + int(ph[1])<<16 + int(ph[2])<<8 + int(ph[3])
 }
@@ -45,6 +49,10 @@ func kindOf(tx interfaces.Transaction) string {
 		return "tk"
 	case ctypes.SideChainPow:
 		return "sp"
+	case ctypes.Record:
+		return "rc"
+	case ctypes.TransferCrossChainAsset:
+		return "xc"
 	}
 	return "ot"
 }
@@ -100,6 +108,8 @@ func (n *Node) DescribeTx(tx interfaces.Transaction) string {
 	case *payload.SideChainPow:
 		ph = append(ph, ID(pl.SideBlockHash), ID(pl.SideGenesisHash))
 		pd = append(pd, hexOrDash(pl.Signature))
+	case *payload.Record:
+		pd = append(pd, hexOrDash(pl.Content))
 	case *payload.CRCProposal:
 		ph = append(ph, ID(pl.DraftHash))
 		pd = append(pd, hexOrDash(pl.DraftData))
